@@ -211,7 +211,15 @@ class B:
         return ('unknown',)
 
     def origin_place(self, pl, depth=0, through_calls=True):
-        projs = tuple(self._proj_names(pl.get('p') or []))
+        projs = list(self._proj_names(pl.get('p') or []))
+        if pl['l'] == 1 and projs and self.b.get('upvars'):
+            first = (pl.get('p') or [None])[0]
+            if isinstance(first, dict) and 'f' in first:
+                for u in self.b['upvars']:
+                    up = u['pl'].get('p') or []
+                    if u['pl']['l'] == 1 and len(up) == 1 and isinstance(up[0], dict) and up[0].get('f') == first['f']:
+                        projs[0] = 'upvar:' + u['n']
+        projs = tuple(projs)
         base = self._origin_local(pl['l'], depth, through_calls)
         return self._with_projs(base, projs)
 
